@@ -21,13 +21,16 @@ pub enum N {
     Var(&'static str),
     Store(&'static str),
     Name(&'static str),
+    /// opaque bracketed construct `OPEN body CLOSE` (foreach..loop, [ .. ], #( .. #)); not part
+    /// of the structural model (resolve() rejects it) — used by the differential corpora
+    Wrap(&'static str, Vec<N>, &'static str),
 }
 
 pub fn size(n: &N) -> usize {
     match n {
         N::If(a, b) => 1 + sz(a) + b.as_ref().map(|b| 1 + sz(b)).unwrap_or(0),
         N::Case(arms, d) => 1 + arms.iter().map(|(p, b)| 1 + sz(p) + sz(b)).sum::<usize>() + sz(d),
-        N::Until(b) | N::Repeat(b) | N::Do(b) | N::Def(_, b) => 1 + sz(b),
+        N::Until(b) | N::Repeat(b) | N::Do(b) | N::Def(_, b) | N::Wrap(_, b, _) => 1 + sz(b),
         N::While(c, b) => 1 + sz(c) + sz(b),
         _ => 1,
     }
@@ -119,6 +122,13 @@ pub fn show(v: &[N], out: &mut String) {
                 out.push_str(nm);
                 out.push(' ')
             }
+            N::Wrap(o, b, c) => {
+                out.push_str(o);
+                out.push(' ');
+                show(b, out);
+                out.push_str(c);
+                out.push(' ');
+            }
         }
     }
 }
@@ -195,6 +205,10 @@ pub fn kinds(v: &[N], out: &mut std::collections::BTreeSet<&'static str>) {
             }
             N::Idx(_) => {
                 out.insert("index");
+            }
+            N::Wrap(_, b, _) => {
+                out.insert("wrap");
+                kinds(b, out);
             }
             _ => {}
         }
@@ -378,6 +392,7 @@ pub fn resolve(v: &[N], env: &mut Env, defs: &mut Vec<Vec<R>>) -> Option<Vec<R>>
                 Some((_, Ent::Var(c))) => R::Store(*c),
                 _ => return None,
             },
+            N::Wrap(..) => return None,
             N::Name(nm) => {
                 if let Some(i) = env.funs.last().and_then(|f| f.iter().rposition(|x| x == nm)) {
                     R::LoadLocal(i)
@@ -738,6 +753,8 @@ pub struct Grammar {
     pub index_words: bool,
     pub breaks: bool,
     pub max_depth: usize,
+    /// opaque bracketed constructs: (open text, close text, acts as a counted loop for I/break)
+    pub wraps: Vec<(&'static str, &'static str, bool)>,
 }
 
 #[derive(Clone)]
@@ -978,6 +995,18 @@ pub fn gen_stmt(gr: &Grammar, k: usize, g: &G, only: Option<usize>, emit: StmtSi
             });
         }
     }
+    gen_wraps(gr, rest, g, &want, emit);
+}
+
+fn gen_wraps(gr: &Grammar, rest: usize, g: &G, want: &dyn Fn(usize) -> bool, emit: StmtSink) {
+    let mut tmp: Vec<N> = vec![];
+    for (wi, (o, c, is_loop)) in gr.wraps.iter().enumerate() {
+        if !want(8 + gr.defs.len() + wi) {
+            continue;
+        }
+        let gi = inner(g, if *is_loop { Some(LoopK::Do) } else { None });
+        gen_seq(gr, rest, &gi, &mut tmp, &mut |b, gb| emit(N::Wrap(o, b.clone(), c), &after(g, gb)));
+    }
 }
 
 /// One independent slice of the space of programs with exactly `total` nodes.
@@ -1010,7 +1039,7 @@ pub fn tasks(gr: &Grammar, s: usize, plen: usize, g0: &G) -> Vec<Task> {
                     acc.pop();
                 }
             }
-            for kind in 1..(8 + gr.defs.len()) {
+            for kind in 1..(8 + gr.defs.len() + gr.wraps.len()) {
                 out.push(Task { prefix: acc.clone(), g: g.clone(), first: Some((k, kind)), rest: s - k });
             }
         }
